@@ -19,7 +19,7 @@ RULE = (
     "stroked (split in two paths); ids that collide with generated ones (g_0, grad1_0, nested-svg-viewport-0); nested "
     "svg with overflow hidden; clip ids shared by several elements. Oracle (validity predicate on the serialised "
     "output, stdlib parser): ids unique; every url(#x) in fill (attribute or style) names a gradient child of defs; every "
-    "gradient in defs is referenced by at least one path. Non-trivial = output has >= 1 gradient or >= 2 ids and the "
+    "gradient in defs is referenced by at least one path; the same for topicosvg(drop_unsupported=True) on documents with unsupported containers (a, switch, mask, symbol, foreignObject) around rendered shapes; and SVG.resolve_use() alone must not return duplicate ids. Non-trivial = output has >= 1 gradient or >= 2 ids and the "
     "source had a shared or re-instanced id (use / gradient used by >= 2 shapes / stroked id'd shape); distinct = distinct source."
 )
 ASSUMPTIONS = ["every reference in the generated source resolves (the property is conditional on that)"]
@@ -62,9 +62,19 @@ def analyse(out: str):
 def check_doc(case) -> Result:
     r = Result()
     feat = case.get("feat", [])
-    r.classes = tuple(f for f in feat if f.startswith("family:") or f in ("use", "gradient-fill", "gradient-href", "gradient-stroke", "id-collision", "invisible-leaf", "root-no-viewbox", "fading-group") or f.startswith("twin:"))
+    r.classes = tuple(f for f in feat if f.startswith("family:") or f in ("use", "gradient-fill", "gradient-href", "gradient-stroke", "id-collision", "invisible-leaf", "root-no-viewbox", "fading-group", "drop_unsupported") or f.startswith("twin:"))
+    drop = bool(case.get("drop_unsupported"))
+    # the instancing step on its own (public SVG.resolve_use): copies of use targets must not repeat ids
     try:
-        out = SVG.fromstring(case["svg"]).topicosvg().tostring()
+        ru = SVG.fromstring(case["svg"]).resolve_use().tostring()
+        src_dup = analyse(case["svg"])[0]
+        ru_dup = analyse(ru)[0]
+        if ru_dup and not src_dup:
+            r.bad("duplicate-id-after-resolve-use", f"SVG.resolve_use() returned a document with duplicate ids {sorted(set(ru_dup))}; out={ru[:400]}")
+    except Exception:
+        pass
+    try:
+        out = SVG.fromstring(case["svg"]).topicosvg(drop_unsupported=drop).tostring()
     except Exception as e:
         r.rejected = f"convert:{type(e).__name__}"
         return r
@@ -121,6 +131,29 @@ def c08_case(draw):
         n["a"].update({"rect": {"x": "5", "y": "6", "width": "30", "height": "20"}, "circle": {"cx": "20", "cy": "20", "r": "12"}, "path": {"d": "M4,4 L40,8 L20,30"}}[n["tag"]])
         root["c"].append(n)
         feat = feat + ["gradient-stroke"]
+    drop = False
+    if draw(st.integers(0, 5)) == 0:
+        # option path drop_unsupported=True: unsupported containers (a, switch, mask, symbol) around rendered shapes -
+        # possibly the only users of a gradient - vanish late
+        leaves = []
+
+        def walk3(n, in_defs=False):
+            for i, c in enumerate(n["c"]):
+                if c["tag"] in docs._SHAPE_TAGS and not in_defs and "id" not in c["a"]:
+                    leaves.append((n, i))
+                if not c["tag"].startswith("#"):
+                    walk3(c, in_defs or c["tag"] in ("defs", "clipPath"))
+
+        walk3(root)
+        uses_grad = [x for x in leaves if "url(" in (x[0]["c"][x[1]]["a"].get("fill", "") + x[0]["c"][x[1]]["s"].get("fill", ""))]
+        pool = uses_grad if uses_grad and draw(st.integers(0, 2)) else leaves
+        if pool:
+            parent, i = pool[draw(st.integers(0, len(pool) - 1))]
+            kind = draw(st.sampled_from(["a", "switch", "mask", "symbol", "foreignObject"]))
+            attrs = {"a": {"xlink:href": "http://example.com/"}, "mask": {"id": "um1"}, "symbol": {"id": "us1"}}.get(kind, {})
+            parent["c"][i] = docs.node(kind, attrs, c=[parent["c"][i]])
+            drop = True
+            feat = feat + ["unsupported-container", "drop_unsupported"]
     r = draw(st.integers(0, 9))
     if r <= 2:
         # a root without viewBox (r <= 1: without any size at all, r == 2: width/height instead) is accepted too
@@ -141,10 +174,10 @@ def c08_case(draw):
             new = draw(st.sampled_from((derived * 3 if derived else []) + ["g_0", "nested-svg-viewport-0", "grad1_0"]))
             if new not in ids:
                 text = text.replace(f'"{victim}"', f'"{new}"').replace(f"#{victim})", f"#{new})").replace(f'"#{victim}"', f'"#{new}"')
-                return {"svg": text, "feat": feat + ["id-collision"]}
-    return {"svg": docs.serialize(root, root=True), "feat": feat}
+                return {"svg": text, "feat": feat + ["id-collision"], "drop_unsupported": drop}
+    return {"svg": docs.serialize(root, root=True), "feat": feat, "drop_unsupported": drop}
 
 
 SUBCHECKS = {
-    "doc": Sub("doc", check_doc, strategy=lambda ctx: c08_case(), examples={"quick": 700, "thorough": 7000}, describe=lambda c: c["svg"]),
+    "doc": Sub("doc", check_doc, strategy=lambda ctx: c08_case(), examples={"quick": 700, "thorough": 7000}, describe=lambda c: {"svg": c["svg"], "drop_unsupported": bool(c.get("drop_unsupported"))}),
 }
